@@ -304,3 +304,43 @@ func VH_C08_vacuity() {
 	verif.Assume(len(stream) > 8)
 	verif.Assert(false, "vacuity")
 }
+
+// VH_C08_overlap: two prepared snapshots alive at once (dragonboat may
+// prepare the next one while the previous one is still being streamed), with
+// a write between the two prepares. Each saved stream reproduces the state of
+// ITS prepare; saving one does not disturb the other.
+func VH_C08_overlap(rt int) {
+	verif.SSTCuts(false)
+	saver := vhOpenedOn(vfs.NewMem(), "/a/t-10001", rt)
+	ref1 := vhArbitraryStateSys(saver.pebble.Load(), 1, 1, -1, true)
+	verif.Assume(ref1.index < 1<<62)
+	ctx1, err := saver.PrepareSnapshot()
+	verif.Assert(err == nil, "first prepare succeeds")
+	k, v := verif.Bytes(1), verif.Bytes(1)
+	_, err = saver.Update([]sm.Entry{vhEntry(ref1.index+1, &regattapb.Command{Table: []byte("t"), Type: regattapb.Command_PUT, Kv: &regattapb.KeyValue{Key: k, Value: v}})})
+	verif.Assert(err == nil, "apply between the prepares succeeds")
+	ref2 := ref1.clone()
+	ref2.put(k, v)
+	ref2.index = ref1.index + 1
+	ctx2, err := saver.PrepareSnapshot()
+	verif.Assert(err == nil, "second prepare succeeds")
+	var b1, b2 bytes.Buffer
+	verif.Assert(saver.SaveSnapshot(ctx1, &b1, make(chan struct{})) == nil, "saving the first snapshot succeeds")
+	verif.Assert(saver.SaveSnapshot(ctx2, &b2, make(chan struct{})) == nil, "saving the second snapshot succeeds")
+	for i, c := range []struct {
+		stream []byte
+		ref    *vhRef
+	}{{b1.Bytes(), ref1}, {b2.Bytes(), ref2}} {
+		recv := vhOpenedOn(vfs.NewMem(), "/b/t-10001", rt)
+		err := recv.RecoverFromSnapshot(bytes.NewReader(c.stream), make(chan struct{}))
+		verif.Assert(err == nil, "recover succeeds")
+		if err == nil {
+			what := "first snapshot"
+			if i == 1 {
+				what = "second snapshot"
+			}
+			vhCheckInstalled(recv, c.ref, what+": the state of its own prepare")
+		}
+	}
+	verif.Cover("end")
+}
